@@ -8,12 +8,17 @@ package packaging
 //@ spec func nsOf(dir string) string
 //@ spec func manifestOf(dir string) string
 
-// readPackageInfo does file-system and yaml work; its contract is assumed (trusted), not verified.
+// readPackageInfo does file-system and yaml work. What names its result (the namespace and the manifest path that belong
+// to a directory are *defined* as what it reads there; yaml.v3 builds import lists without nil elements) is assumed at
+// call sites and not proved; that every successful call hands out a package object of its own is proved (C10, C18: the
+// loaders rely on it - a version entry that points at the package's own directory must not share the object, or the
+// manifest graph gets a cycle that every recursive walk over it follows for ever).
 //@ func readPackageInfo
-//@   trusted
+//@   property C18,C10
 //@   assigns nothing
-//@   ensures result1 == nil ==> result0 != nil && fresh(result0) && result0.Namespace == nsOf(directory) && result0.FilePath == manifestOf(directory)
-//@   ensures result1 == nil ==> len(result0.Imports) <= 1048576 && (forall k in 0..len(result0.Imports) :: result0.Imports[k] != nil)
+//@   names result1 == nil ==> result0.Namespace == nsOf(directory) && result0.FilePath == manifestOf(directory)
+//@   names result1 == nil ==> len(result0.Imports) <= 1048576 && (forall k in 0..len(result0.Imports) :: result0.Imports[k] != nil)
+//@   ensures every_successful_read_is_a_new_object: result1 == nil ==> result0 != nil && fresh(result0)
 
 // One resolved directory per requested url, in order.
 //@ func fetchAndCachePackages
